@@ -199,6 +199,8 @@ func runPluginProc() int {
 		fifo := filepath.Join(caseDir, "release.fifo")
 		must(syscall.Mkfifo(fifo, 0600))
 		writeExec(path, procScript(in, name, fifo))
+		// the executable's path as the caller writes it: literal, through a link, with dot elements, relative to the working directory
+		path = strings.TrimSuffix(spell(filepath.Dir(path), filepath.Join(caseDir, "parent-link"), mix(*flagSeed, c.ID, "spell")), "/") + "/notation-" + name
 		obs := PPObs{ErrContent: "n/a"}
 		timeout := 60 * time.Second
 		if in.Timing != "immediate" {
